@@ -43,9 +43,11 @@ STRINGISH = (TokenType.STRING, TokenType.RAW_STRING, TokenType.NATIONAL_STRING)
 
 # statement used for the comment obligations; parsed concretely here
 _STMT_SQL = P.get("stmt", "SELECT a")
-_STMT = D.parse(_STMT_SQL)[0]
-_BASE_SQL = {p: GEN[p].generate(_STMT) for p in (False, True)}
-_BASE_TOKS = {p: [(t.token_type, t.text) for t in TOK.tokenize(_BASE_SQL[p])] for p in (False, True)}
+if KIND == "comment":
+    # the tree is dialect-neutral: parsed by the base dialect, generated and re-tokenized by D
+    _STMT = Dialect.get_or_raise(None).parse(_STMT_SQL)[0]
+    _BASE_SQL = {p: GEN[p].generate(_STMT) for p in (False, True)}
+    _BASE_TOKS = {p: [(t.token_type, t.text) for t in TOK.tokenize(_BASE_SQL[p])] for p in (False, True)}
 
 
 def in_bounds(v: str, pretty: bool) -> bool:
@@ -115,6 +117,21 @@ def check_comment(v: str, pretty: bool) -> bool:
     if [(x.token_type, x.text) for x in toks] != _BASE_TOKS[pretty]:
         return False
     return GEN_NC[pretty].generate(t) == _BASE_SQL[pretty]
+
+
+def explain(v: str, pretty: bool) -> str:
+    pretty = bool(pretty)
+    if KIND == "comment":
+        t = _STMT.copy()
+        t.expressions[0].add_comments([v])
+        sql = GEN[pretty].generate(t)
+    else:
+        sql = render(v, pretty)
+    try:
+        toks = [(t.token_type.name, t.text) for t in TOK.tokenize(sql)]
+    except Exception as e:
+        toks = "raises " + type(e).__name__ + ": " + str(e)[:120]
+    return f"dialect={DIALECT or 'base'} kind={KIND} v={v!r} generated={sql!r} tokens={toks!r}"
 
 
 def prop(v: str, pretty: bool) -> bool:
